@@ -92,6 +92,33 @@ def fam_lanes(rng, sid0, n):
     return out
 
 
+def fam_lanes_exact(rng, sid0, n):
+    """Tables whose match bits fill the command buffer exactly (commands = 4 x capacity): C03."""
+    out = []
+    for i in range(n):
+        acap = rng.choice([6, 7, 8, 9, 16])
+        N = 4 * acap - rng.choice([0, 0, 0, 1, 3])
+        names = []
+        alpha = "ABCDEFGHJKLMNPQRSTUVWXYZ0123456789"
+        while len(names) < N:
+            nm = "+" + rng.choice(alpha) + rng.choice(alpha) + rng.choice(alpha)
+            if nm not in names:
+                names.append(nm)
+        cmds = [Cmd(nm, hx=True) for nm in names]
+        ev = Cmd("+V", vars=[Var(UINT, 1, RW, None, mem=b"\x07")])
+        cmds[-1] = ev
+        if rng.random() < 0.5:
+            sc = Scenario(sid0 + i, cmds, qcap=1, bufsize=2 * acap, grain="compact", meta={"family": "fam_lanes_exact"})
+        else:
+            sc = Scenario(sid0 + i, cmds, qcap=1, bufsize=acap, usize=rng.choice([8, 12]), grain="compact", meta={"family": "fam_lanes_exact"})
+        for idx in rng.sample(range(N - 1), 6):
+            sc.trig(N - 1, "r")
+            sc.feed(("AT" + names[idx] + "\n").encode())
+            sc.settle(20000)
+        out.append(sig(sc, N, acap))
+    return out
+
+
 def fam_casefold(rng, sid0, n):
     out = []
     for i in range(n):
@@ -360,6 +387,14 @@ def fam_bounds(rng, sid0, n):
 # --------------------------------------------------------------------------- C07: literal round trip
 
 def rt_mem(rng, vtype, size):
+    if vtype == STRING and size >= 2 and rng.random() < 0.4:
+        # full-length strings whose first / last characters need escaping
+        k = size - 1
+        body = bytearray(rng.choice(b'ab"\\\n,z') for _ in range(k))
+        body[-1] = rng.choice(b'"\\\n')
+        if rng.random() < 0.5:
+            body[0] = rng.choice(b'"\\\n')
+        return bytes(body) + b"\0"
     if vtype == STRING:
         k = rng.randint(0, size - 1)
         body = bytes(rng.choice([x for x in range(1, 256) if x != 13]) if rng.random() < 0.6 else rng.choice(b'"\\\n,a') for _ in range(k))
@@ -530,6 +565,8 @@ def fam_codes(rng, sid0, n):
                 for cd in codes:
                     data = bytes(rng.choice(b"uvw0=") for _ in range(rng.randint(0, 6))) if rng.random() < 0.5 else None
                     sc.hs(1, kind, "e", ret=cd, data=data, act=("setmem:1:0:%02x%02x" % (rng.randrange(256), rng.randrange(256))) if cu.vars and rng.random() < 0.4 else None)
+                if cu.vars and cu.vars[0].vr and rng.random() < 0.5:
+                    sc.vs(1, 0, "r", ret=rng.choice([0, 1, -1]))
                 sc.trig(1, kind)
                 sc.settle(6000)
         out.append(sig(sc, seqs, bool(cmd.vars), bool(cu.vars)))
@@ -704,26 +741,35 @@ def fam_quiesce(rng, sid0, n):
 def fam_mutex(rng, sid0, n):
     out = []
     base = None
+    codes = [R_OK, R_DATA_OK, R_ERROR, R_HOLD_EXIT_OK, R_HOLD_EXIT_ERROR, R_LIST, R_NEXT, R_DATA_NEXT, -2, 9]
     for i in range(n):
         if i % 8 == 0:
             base = rng.randrange(1 << 30)
         r2 = random.Random(base)
-        cC = Cmd("+C", hr=True, hw=True, hx=True, vars=[Var(UINT, 1, RW, "c", vr=True, vw=True, mem=b"\x09")])
-        cU = Cmd("+U", hr=True, vars=[Var(UINT, 1, RW, "u", mem=b"\x05")])
+        cC = Cmd("+C", hr=True, hw=True, hx=True, ht=True, vars=[Var(UINT, 1, RW, "c", vr=True, vw=True, mem=b"\x09")])
+        cU = Cmd("+U", hr=True, ht=True, vars=[Var(UINT, 1, RW, "u", mem=b"\x05")])
         sc = Scenario(sid0 + i, [cC, cU], qcap=2, bufsize=64, mutex=True, grain="step", auto="bhf", meta={"family": "fam_mutex"})
-        sc.hs(0, "x", ret=R_HOLD)
-        ops = 0
+        # every return code for every handler kind, in both machines, reached while the mutex is held
+        for kind in "wrxt":
+            for _ in range(3):
+                sc.hs(0, kind, "c", ret=r2.choice(codes + [R_HOLD]))
+        for kind in "rt":
+            for _ in range(6):
+                sc.hs(1, kind, "e", ret=r2.choice(codes))
         if i % 8 != 0:
             # lock or unlock failing at the k-th invocation (the history itself is the same for the 8 scenarios of a base)
             k = rng.randint(1, 900)
             (sc.lock_fail if rng.random() < 0.5 else sc.unlock_fail)(k, rng.choice([1, -1, 5]))
             if rng.random() < 0.3:
                 (sc.lock_fail if rng.random() < 0.5 else sc.unlock_fail)(rng.randint(1, 900), 1)
-        for _ in range(6):
+        for _ in range(8):
             r = r2.random()
-            if r < 0.3:
+            if r < 0.5:
                 sc.trig(1, r2.choice("rt"), api=r2.choice(["trig", "trigr", "trigt"]))
-            sc.feed(r2.choice([b"AT+C?\n", b"AT+C=3\n", b"AT+C\n", b"AT+Q\n"]))
+            sc.feed(r2.choice([b"AT+C?\n", b"AT+C=3\n", b"AT+C\n", b"AT+Q\n", b"AT+C=?\n"]))
+            sc.svc(r2.randint(1, 40))
+            if r2.random() < 0.5:
+                sc.trig(1, r2.choice("rt"))
             sc.svc(r2.randint(1, 40))
             sc.hexit(r2.choice([0, -1]))
             sc.settle(6000)
@@ -758,4 +804,53 @@ def fam_hist(rng, sid0, n):
         else:
             line_block(sc, order, 10000)
         out.append(sig(sc, tuple(order), fill))
+    return out
+
+
+# --------------------------------------------------------------------------- C12: literal schedule independence (no events in play)
+
+def conf_scenario(rng, sid, key, variant):
+    r2 = random.Random(key)
+    cC = Cmd("+C", hr=True, hw=True, hx=r2.random() < 0.5, ht=True, desc=r2.choice([None, "dd"]),
+             vars=[Var(UINT, 2, RW, "c", vw=r2.random() < 0.5, mem=b"\x10\x00"), Var(STRING, 6, RW, "s", mem=b"ab\0\0\0\0")])
+    cL = Cmd("+L", hx=True)
+    cI = Cmd("I", hw=True, implicit=True)
+    sc = Scenario(sid, [cC, cL, cI], qcap=1, bufsize=r2.choice([48, 64]), grain="compact", meta={"family": "fam_conf", "conf_key": key, "variant": variant})
+    sc.note("conf_%d_%d" % (key, variant))
+    sc.hs(1, "x", ret=R_LIST)
+    sc.hs(1, "x", ret=R_LIST)
+    for _ in range(4):
+        for j in range(r2.choice([0, 1, 2, 3])):
+            sc.hs(0, "r", "c", ret=r2.choice([R_DATA_NEXT, R_NEXT]), data=(b"c%d" % j) if r2.random() < 0.6 else None)
+        sc.hs(0, "r", "c", ret=r2.choice([R_DATA_OK, R_OK, R_ERROR]), data=b"cend" if r2.random() < 0.5 else None)
+    for _ in range(3):
+        sc.hs(0, "t", "c", ret=r2.choice([R_DATA_OK, R_DATA_NEXT, R_OK]))
+    lines = [b"AT+C?\r\n", b"AT+L\r\n", b"AT+C=77,\"xy\"\n", b"AT+C?\n", b"AT+X\r\n", b"AT+C=?\r\n", b"ATIhello\r\n", b"AT+C=1,\"toolongstring\"\n", b"AT\r\n", b"\r\nAT+L\n"]
+    r2.shuffle(lines)
+    lines = lines[:r2.choice([4, 6])]
+    if variant == 0:
+        pass                                           # eager: everything ready
+    elif variant == 1:
+        sc.rds("10" * 400)                             # one byte every other call
+        sc.wrs("".join(rng.choice("10") for _ in range(1500)))
+    else:
+        p = rng.choice([0.3, 0.6, 0.9])
+        sc.rds("".join("0" if rng.random() < p else "1" for _ in range(600)))
+        sc.wrs("".join(rng.choice("02n") if rng.random() < p else "1" for _ in range(2500)))
+    if r2.random() < 0.5:
+        sc.feed(b"".join(lines)).settle(60000)
+    else:
+        for l in lines:
+            sc.feed(l).settle(30000)
+    return sc
+
+
+def fam_conf(rng, sid0, n):
+    out = []
+    while len(out) < n:
+        key = rng.randrange(1 << 30)
+        for variant in range(4):
+            if len(out) >= n:
+                break
+            out.append(sig(conf_scenario(rng, sid0 + len(out), key, variant), key, variant))
     return out
